@@ -60,6 +60,7 @@ type runtime struct {
 	scope        *scope
 	otto         *Otto
 	eval         *object
+	thrower      *object // [[ThrowTypeError]] (13.2.3), see throwTypeErrorFunction
 	debugger     func(*Otto)
 	random       func() float64
 	labels       []string
